@@ -63,6 +63,59 @@ func Corpus(maxLen int, files ...string) []string {
 	return out
 }
 
+// RegressItem is one pinned input: a source and the variants it is checked in.
+type RegressItem struct {
+	Src   string
+	Langs []syntax.LangVariant
+}
+
+// Regress reads /verif/corpus/<id>/regress.txt (lines "<variant or *>\t<Go-quoted string>", '#' comments,
+// {PAD:n} = n times 'a'): the pinned inputs a check visits first on every seed and tier.
+func Regress(id string) []RegressItem {
+	root := os.Getenv("VERIF_ROOT")
+	if root == "" {
+		root = "/verif"
+	}
+	data, err := os.ReadFile(filepath.Join(root, "corpus", id, "regress.txt"))
+	if err != nil {
+		panic(err)
+	}
+	var out []RegressItem
+	for ln, line := range strings.Split(string(data), "\n") {
+		if line == "" || strings.HasPrefix(line, "#") {
+			continue
+		}
+		name, quoted, ok := strings.Cut(line, "\t")
+		src, err := strconv.Unquote(quoted)
+		if !ok || err != nil {
+			panic(fmt.Sprintf("corpus/%s/regress.txt:%d: bad line", id, ln+1))
+		}
+		for {
+			i := strings.Index(src, "{PAD:")
+			if i < 0 {
+				break
+			}
+			j := strings.IndexByte(src[i:], '}')
+			n, err := strconv.Atoi(src[i+5 : i+j])
+			if err != nil {
+				panic(fmt.Sprintf("corpus/%s/regress.txt:%d: bad PAD", id, ln+1))
+			}
+			src = src[:i] + strings.Repeat("a", n) + src[i+j+1:]
+		}
+		it := RegressItem{Src: src}
+		for _, l := range Langs {
+			if name == "*" || name == l.String() {
+				it.Langs = append(it.Langs, l)
+			}
+		}
+		if len(it.Langs) == 0 {
+			panic(fmt.Sprintf("corpus/%s/regress.txt:%d: unknown variant %q", id, ln+1, name))
+		}
+		out = append(out, it)
+	}
+	return out
+}
+
 // Extra inputs aimed at the reader: lookahead at buffer ends, escaped
 // newlines, CRLF, NUL, multi-byte and invalid UTF-8, nested backquotes.
 var Extra = []string{
